@@ -192,6 +192,12 @@ def c13_jobs(tier):
             if mode == 2 and not base:
                 continue
             jobs.append(job(MSG, "HSkipUnsupported", [-1, mode, L] + base + [0]))
+    # in front of the Encrypted payload of a protected message (through DecodeDecrypt)
+    for s in ([0, 4, 8] if q else range(9)):
+        for role in (0, 1):
+            for cnt in (1, 2):
+                base = [[40], [33, 41]][(s + role + cnt) % 2]
+                jobs.append(job(ROOT, "HSkipBeforeProtected", [s, role, (s + role + cnt) % 2, cnt, 8 if q else 64] + base + [0]))
     return jobs
 
 
@@ -369,6 +375,8 @@ def c14_jobs(tier):
             jobs.append(job(EAP, "HSetterSizes", [a, n]))
     for n in ([65522, 65523, 65524, 65525] if q else range(65518, 65534)):
         jobs.append(job(EAP, "HEapOversize", [n]))
+    for r, a1, a2 in ((0, 2, 4), (3, 6, 1), (5, 4, 2), (6, 0, 5), (1, 3, 6)):
+        jobs.append(job(EAP, "HMarshalDeterministicDecoded", [r, a1, a2], map_orders=True))
     return jobs
 
 
